@@ -25,6 +25,14 @@ def memBytes (seed : Nat) (server : String) (unit : UInt8) (start n : Nat) : Byt
     let v := memReg seed server unit (start + i)
     [UInt8.ofNat (v / 256), UInt8.ofNat (v % 256)]
 
+/-- the coil / discrete input at `addr` of the device -/
+def memCoil (seed : Nat) (server : String) (unit : UInt8) (addr : Nat) : Bool :=
+  (memReg seed server unit addr / 4) % 2 == 1
+
+/-- the coil payload of a conforming reply: `n` coils from `start`, packed least significant bit first -/
+def memCoilBytes (seed : Nat) (server : String) (unit : UInt8) (start n : Nat) : Bytes :=
+  Spec.pack ((List.range n).map fun i => memCoil seed server unit (start + i))
+
 structure ExtractOp where
   target : Nat
   lenient : Bool
@@ -62,9 +70,11 @@ def ExtractOp.modelOut (op : ExtractOp) : String :=
     let parts := (sortBy breqLt rs).map fun b =>
       let q := qtyOf b.req
       let n := op.regCount q
-      let payload := memBytes op.seed b.server b.unit b.start.toNat n
       let status :=
-        if n == 0 then "parse-err|" else extractedStr (extractRegisterFields b ⟨payload, []⟩ op.lenient)
+        if n == 0 then "parse-err|"
+        else if op.target < 4 then
+          extractedStr (extractCoilFields b (memCoilBytes op.seed b.server b.unit b.start.toNat n) op.lenient)
+        else extractedStr (extractRegisterFields b ⟨memBytes op.seed b.server b.unit b.start.toNat n, []⟩ op.lenient)
       s!"{b.server}|{b.unit}|{b.start}|{q}|{",".intercalate (b.fields.map (·.name))}|{status}"
     "ok " ++ ";".intercalate parts
   | .err e => e.str
@@ -151,6 +161,45 @@ def checkExtract (op : ExtractOp) (rs : List OutExt) : Option String :=
         if (names.filter (· == f.name)).length == 1 then none else some s!"field {f.name} not reported exactly once"
       else none
 
+/-- coil fields extracted through the builder (C11): the value is bit (i mod 8) of payload byte (i div 8) as the
+device sent it, i.e. the device's coil; a field beyond the payload's last bit is an error -/
+def checkCoilExtract (op : ExtractOp) (rs : List OutExt) : Option String :=
+  let find (n : String) : Option Field := op.fields.find? (·.name == n)
+  rs.findSome? fun r =>
+    let n := op.regCount r.qty
+    if n == 0 then none else
+    let nbits := 8 * ((n + 7) / 8)
+    let unreachable := r.names.any fun k => match find k with
+      | some f => f.addr.toNat < r.start || f.addr.toNat - r.start ≥ nbits
+      | none => true
+    if r.status == "failed" then
+      (if !op.lenient && unreachable then none else some "coil extraction failed as a whole although every field is inside the payload (or lenient mode)")
+    else if r.status == "all" || r.status == "some" then
+      if r.vals.map (·.1) != r.names then some "a delivering request must report exactly its own fields" else
+      r.vals.findSome? fun (k, v) =>
+        match find k with
+        | none => some "unknown field"
+        | some f =>
+          let i := f.addr.toNat - r.start
+          if f.addr.toNat < r.start || i ≥ nbits then
+            (if v == "!err" then none else some s!"coil field {k} beyond the payload must be an error, got {v}")
+          else
+            let bit := if i < n then memCoil op.seed r.server (UInt8.ofNat r.unit) f.addr.toNat else false
+            let want := if bit then "bool:1" else "bool:0"
+            if v == want then none else some s!"coil field {k}: the device's coil is {want}, got {v}"
+    else none
+
+def judgeC11x (op : ExtractOp) (out : String) : Expect :=
+  if out.startsWith "err" then .free else
+  if out == "ok -" then .noPanic else
+  if !out.startsWith "ok " then .pred false "panic or unreadable output" else
+  match ((out.drop 3).toString.splitOn ";").mapM parseOutExt with
+  | none => .pred false "unreadable output"
+  | some rs =>
+    match checkCoilExtract op rs with
+    | none => .pred true ""
+    | some w => .pred false w
+
 def judgeC05 (op : ExtractOp) (out : String) : Expect :=
   if out.startsWith "err" then .free else
   if out == "ok -" then .pred ((op.fields.filter fun f => !f.isCoil).isEmpty) "fields of the requested kind were dropped" else
@@ -165,6 +214,15 @@ def judgeC05 (op : ExtractOp) (out : String) : Expect :=
 def ExtractOp.judge (prop : String) (op : ExtractOp) (out : String) : Expect :=
   -- C13: every field's value is the direct decoding of the device memory, whatever was extracted before it and in
   -- which order (the generator permutes and repeats fields) - the same oracle as C05
+  if op.target < 4 then (if prop == "C11" then judgeC11x op out else .noPanic) else
   if prop == "C05" || prop == "C13" then judgeC05 op out else .noPanic
+
+/-- known finding KF-C11-byte-order: the coil lookup indexes payload bytes from the end, so with two or more payload
+bytes the value comes from the wrong byte -/
+def ExtractOp.kf (prop : String) (op : ExtractOp) (out : String) : Option String :=
+  if prop != "C11" || op.target ≥ 4 then none else
+  match ((out.drop 3).toString.splitOn ";").mapM parseOutExt with
+  | some rs => if rs.any (fun r => op.regCount r.qty > 8) then some "KF-C11-byte-order" else none
+  | none => none
 
 end Modbus.Driver
